@@ -15,6 +15,13 @@ SSModel conversions are composed on the *objects* the methods return (c2d(d2c(z)
 getlti), so what a result says about itself (h, method, prewarp) is part of the value; R7 is a typestate rule: the A^-1 formula of the second
 integral is justified only by a test, made on the same path, of a solve with the factorisation of A against the independently computed first
 integral (la.lu_factor is the pair (lufac, lupiv): a solve with it is a division, anything else read from it is a function of the factors).
+
+Pass 4: the evaluator follows iterator state, mutable lists, generator functions, closures that rebind, loops left from inside, exception
+handlers (c07_interp docstring); a value that contains something it did not follow (`call:not-followed`, the result `@exit` of a loop
+whose number of passes depends on data, a library call no rule models) makes an obligation an ANALYSIS-ERROR, never a VIOLATION: every
+comparison goes through `verdict` / `_unmodelled`, a route whose Pade table is such a value counts as not evaluated.  The scaling power
+of the order-13 route is decided on numbers: ceil / floor / round / int and log2 of constants are evaluated exactly, and the norm
+estimates of five regimes are placed so that theta_13, the rounding direction, the clamp at 0 and min(eta_3, eta_4) each show.
 """
 from __future__ import annotations
 
@@ -303,6 +310,14 @@ def scalar_hook(extra=None, d=None, ell=None):
             return clone(pos[0])
         if name in ("np.eye", "np.identity"):
             return F.const(1)
+        if name == "np.linalg.multi_dot" and n == 1 and not kw and isinstance(pos[0], (tuple, list)) and pos[0]:
+            out_ = pos[0][0]
+            for x_ in pos[0][1:]:
+                out_ = _mul(it, out_, x_)
+            return out_
+        if name == "np.linalg.matrix_power" and n == 2 and not kw and I.is_const(pos[1]) and I.cval(pos[1]).denominator == 1 \
+                and 0 <= I.cval(pos[1]) <= 64 and isinstance(pos[0], F.Rat):
+            return pos[0] ** int(I.cval(pos[1]))
         if name in ("np.zeros", "np.zeros_like", "np.empty", "np.empty_like"):
             return F.const(0)
         if name == "la.inv" and n == 1:
@@ -376,6 +391,9 @@ def _unmodelled(values):
         for nm in _symbols(v):
             if "@exit" in nm and "loop left under an undecided test" not in out:
                 out.append("loop left under an undecided test")
+            # an object / function / class of the module used as a number: nothing the rules can compare
+            if nm.startswith("<") and not nm.startswith("<index>") and "an object used as a value" not in out:
+                out.append("an object used as a value")
     return out
 
 
@@ -932,7 +950,9 @@ def r2_thresholds(ctx):
         leaf = [c for c in r.it.calls if c.name in LEAF_SOLVES]
         lu = [c for c in r.it.calls if c.name in ("la.lu_factor", "la.lu_solve")]
         ok = r.order is not None and r.order <= 9 and len(leaf) >= 2 and not lu
-        if r.order is None and not _aborted(ctx, "getEPQ: route below the switch", fn, r.ret):
+        if not ok and r.order is not None and _has_unknown(r.ret) and not _find_crash(r.ret):
+            ctx.error("getEPQ: route below the switch", fn, f"expmint's route there could not be evaluated to its end: {r.ret!r}"[:300])
+        elif r.order is None and not _aborted(ctx, "getEPQ: route below the switch", fn, r.ret):
             ctx.error("getEPQ: route below the switch", fn, f"no exponential solve mf._solve_P_Q(U, V) found on expmint's route: {r.ret!r}"[:300])
         elif r.order is not None:
             ctx.check(ok, "getEPQ: just below its switch constant getEPQ1's expmint is on a Pade route of order <= 9, for which the second "
@@ -2071,7 +2091,7 @@ def r7_inverse_formula_guard(ctx):
 
 RULES = [
     ("C07-R1", r1_pade_tables, 29),
-    ("C07-R2", r2_thresholds, 44),
+    ("C07-R2", r2_thresholds, 52),
     ("C07-R3", r3_squaring, 22),
     ("C07-R4", r4_siblings, 26),
     ("C07-R5", r5_ssmodel, 60),
@@ -2082,7 +2102,7 @@ LEVEL = "other"
 EXPLANATION = ("Static: every Pade coefficient table in expmint.py (17 tables) is extracted under the scalar homomorphism A->x and checked, "
                "in exact rational arithmetic on the literals' decimal text, to satisfy the order conditions of the diagonal approximant of "
                "exp(x), sum x^k/(k+1)! and sum x^k/((k+2)k!); expmint/_expm_SS are evaluated in regimes just below and above each published theta_m: "
-               "the table used, the order told to _geti2, the scaling power and the squaring loop (trip count, I <- I + I.E before E <- E.E) are values "
+               "the table used, the order told to _geti2, the scaling power (five placements of the norm estimates around theta_13 2^k) and the squaring loop (trip count, I <- I + I.E before E <- E.E) are values "
                "of that evaluation; getEPQ1/getEPQ_pow build P,Q identically in every B/half regime; the power-series loops produce the documented partial "
                "sums; getEPQ switches at theta_9, which bounds the route with a Pade table for the second integral; getEPQ2's augmented matrix "
                "(blocks, floating dtype, partition of the result), also with an input matrix and half=True (the option is ignored, as in the sibling variants); "
@@ -2093,7 +2113,7 @@ EXPLANATION = ("Static: every Pade coefficient table in expmint.py (17 tables) i
 MANIFEST = {
     "text": "Partial claim decided statically: (R1) all 17 Pade tables are exact diagonal approximants (order conditions to O(x^(2N+1)) in exact rationals), "
             "with 2^-s scaling applied uniformly; (R2) regimes just below/above each published theta_m select the order-m table and tell _geti2 that order, "
-            "the order-13 scaling power, getEPQ's switch constant and the route it guards; "
+            "the order-13 scaling power s = max(ceil(log2(min(max(d6,d8), max(d8,d10)) / 4.25)), 0) + ell on five placements of the estimates, getEPQ's switch constant and the route it guards; "
             "(R3) squaring loop runs s times with I <- I + I.E before E <- E.E, E/I/I2 assembled from the table of the route, _solve_P_Q_2 per structure; "
             "(R4) getEPQ1 == getEPQ_pow in P,Q construction for B given / half / both (half ignored when B is given), power-series partial sums, "
             "direct I2 formula (written with I or with A^-1 (E - 1)); "
